@@ -196,6 +196,11 @@ func init() {
 			for _, cu := range returnUnivs(p, fn) {
 				fmt.Printf("   univ-summary key=%q edge=%d %s\n", cu.Key, cu.Edge, cu.F)
 			}
+			sites, complete := p.staticCallSites(fn)
+			fmt.Printf("   call sites=%d complete=%v\n", len(sites), complete)
+			for _, f := range g.entryFacts() {
+				fmt.Printf("   entry: %s\n", f)
+			}
 			for _, iu := range g.importedUnivs() {
 				fmt.Printf("   imported key=%q edge=%d %s\n", iu.Key, iu.Edge, iu.F)
 			}
